@@ -6,6 +6,7 @@
 -/
 import Relic.Proofs.MsiTree
 import Relic.Proofs.MsiTar
+import Relic.Proofs.MsiSortPanic
 import Relic.Props.C05_Msi
 namespace Relic.Props.C18
 open Relic Relic.MsiDigest
@@ -29,8 +30,8 @@ theorem less_panics_iff (a b : Meta) (ha : a.slots.length = 32) (hb : b.slots.le
 
 /-- **sort_total_no_panic_partial.** If no two entries of the list satisfy the trigger, `sortMsiFiles` returns
     (no panic, no error) – for the insertion sort Go runs on up to 12 elements, which only compares different
-    entries.  Proved: absence of a trigger pair ⇒ total.  Not proved (`sort_panics_iff_full`): every list
-    containing a trigger pair panics. -/
+    entries.  Proved: absence of a trigger pair ⇒ total.  The converse (every list containing a trigger pair
+    panics) is `sort_panics_iff` below. -/
 theorem sort_total_no_panic_partial (l : List (Item β)) (hlen : ∀ a ∈ l, a.1.slots.length = 32)
     (h : l.Pairwise (fun a b => ¬ Trigger a.1 b.1)) : ∃ s, sortItems l = .ok s ∧ s.Perm l := by
   let lt : Item β → Item β → Bool := fun a b => match less a.1 b.1 with | .ok r => r | _ => false
@@ -44,9 +45,26 @@ theorem sort_total_no_panic_partial (l : List (Item β)) (hlen : ∀ a ∈ l, a.
   have := sortRes_ok (fun a b : Item β => less a.1 b.1) lt l hp
   exact ⟨_, this, sortP_perm lt l⟩
 
-def sort_panics_iff_full : Prop :=
-  ∀ (l : List (Item Bytes)), (∀ a ∈ l, a.1.slots.length = 32) →
-    (sortItems l = .panic "sortMsiFiles" ↔ ¬ l.Pairwise (fun a b => ¬ Trigger a.1 b.1))
+/-- **sort_panics_iff** (was `sort_panics_iff_full`).  `sortMsiFiles` (the insertion sort Go runs on up to 12
+    entries) panics on *exactly* the lists that hold a trigger pair anywhere: the comparator is, outside its
+    trigger, the strict order of a key (`sortKey`) under which the two entries of a trigger pair are equal, the
+    sorted prefix is sorted by that key, so the later entry of the pair cannot come to rest before it is compared
+    with an entry of the same key and `NameLength > 32` – which panics.  No hypothesis on the names. -/
+theorem sort_panics_iff (l : List (Item β)) (hlen : ∀ a ∈ l, a.1.slots.length = 32) :
+    sortItems l = .panic "sortMsiFiles" ↔ ¬ l.Pairwise (fun a b => ¬ Trigger a.1 b.1) := by
+  constructor
+  · intro hp hpw
+    obtain ⟨s, hs, _⟩ := sort_total_no_panic_partial l hlen hpw
+    rw [hs] at hp
+    cases hp
+  · exact sortItems_panics l hlen
+
+/-- the sort has exactly two outcomes: a permutation, or this panic -/
+theorem sort_total_or_panics (l : List (Item β)) (hlen : ∀ a ∈ l, a.1.slots.length = 32) :
+    (∃ s, sortItems l = .ok s ∧ s.Perm l) ∨ sortItems l = .panic "sortMsiFiles" := by
+  by_cases h : l.Pairwise (fun a b => ¬ Trigger a.1 b.1)
+  · exact Or.inl (sort_total_no_panic_partial l hlen h)
+  · exact Or.inr ((sort_panics_iff l hlen).mpr h)
 
 /-- two entries whose 32-slot arrays are identical ("aaaaaaaaaaaaaaaa…" twice) with `NameLength` 34 -/
 def dupLong : Meta := C05.mkMeta (List.replicate 32 97) 34 2
@@ -59,6 +77,10 @@ theorem sort_panics_witness :
     Trigger dupLong dupLong ∧
     (sortItems [({ dupLong with nameLen := 32 }, (.ok [1] : Res Bytes)), ({ dupLong with nameLen := 32 }, .ok [2])]).isOk = true := by
   refine ⟨by rfl, ⟨by decide, by decide, rfl⟩, by rfl⟩
+
+/-- a trigger pair that is not adjacent, with different `NameLength`s (34 and 36), an unrelated entry between -/
+example : sortItems [(dupLong, (.ok [1] : Res Bytes)), (C05.mkMeta [98] 4 2, .ok [2]), ({ dupLong with nameLen := 36 }, .ok [3])]
+    = .panic "sortMsiFiles" := by rfl
 
 /-- **sort_unique.** On siblings with well-formed, pairwise distinct names the comparator is a strict total
     order, so *any* sorting algorithm driven by it (Go's pdqsort beyond 12 elements) returns what the model
